@@ -15,15 +15,19 @@ import c12_fake as F
 from vloop import vrun
 
 META = {
-    "level": "Proof over a model FAMILY of SSETransport indexed by four flags (HEAD behaviour / behaviour after each proposed patch): "
+    "level": "Proof over a model FAMILY of SSETransport indexed by seven flags (behaviour before / after each repair; five are in /repo, "
+             "two are proposed as fixes/C12-6-*.patch and fixes/C12-7-*.patch): "
              "entering yields Live only with a non-empty URL announced on a 200 stream before the timeout, else raises no later than the "
              "timeout (all server behaviours, all members); the line parser's output is the same for ALL chunkings of the text; every "
              "complete life of a request (all interleavings of POST result, answer on the stream, timer, sender wake-up, unrelated "
              "traffic) yields exactly one terminal message with the request's id incl. its JSON type (members with keep_id and "
              "other_terminal); what the stream task delivers is a subsequence of the stream and is complete for unrelated traffic; "
-             "_cleanup releases everything from any state and every closed life is released. Full-strength exactly-once (late answers) and "
-             "full-strength ordering (answer vs. following event) are REFUTED on every member (known findings). The check identifies the "
-             "member the code under test behaves like and ties it to the real sse_client()/SSETransport by a differential run.",
+             "_cleanup releases everything from any state and every closed life is released. Full-strength exactly-once (the server's one answer "
+             "may come after the synthesised terminal message) is PROVED for members with drop_late and REFUTED for every member without; "
+             "full-strength ordering (everything due from the event stream reaches the read stream in stream order, the answer at its own "
+             "place, the late answer not at all) is PROVED for members with drop_late and route_in_stream and REFUTED for every member "
+             "lacking one of them. /repo HEAD lacks both (two known findings); the check identifies the member the code under test "
+             "behaves like and ties it to the real sse_client()/SSETransport by a differential run.",
     "note": "Trusted: Coq kernel, extraction (ExtrOcamlBasic only), the harness incl. the scripted httpx transport and the virtual-clock loop, "
             "the harness's mapping from a scripted timeline to the model's event list. Modelled not verified: asyncio/anyio scheduling "
             "(when the sender task resumes relative to the stream task: event EWake), httpx (stream(), aiter_text incremental decoding, "
@@ -38,7 +42,8 @@ TARGETS = ["Base/SseVocab", "Model/SseLegacy", "Spec/C12", "Proofs/SseLegacy", "
 TRUSTED = [
     "Coq 8.16.1 kernel (coqc); coqchk re-check in the thorough tier; vm_compute only in the refutation witnesses",
     "axioms: none (every C12 theorem prints 'Closed under the global context')",
-    "hand-written model family Model/SseLegacy.v (cfg flags = HEAD vs. each fixes/C12-*.patch), tied by the correspondence run; "
+    "hand-written model family Model/SseLegacy.v (cfg flags = before vs. after each repair; cfg_head = /repo HEAD, cfg_patched = HEAD + "
+    "fixes/C12-6, C12-7), tied by the correspondence run; "
     "the member is identified per run from the code's behaviour and recorded in evidence (code_variant)",
     "harness: scripted httpx transport (subclass of the original httpx.AsyncClient injected into the transport module's namespace), "
     "virtual-clock loop, the mapping timeline -> model events (incl. where the sender's wake-up falls)",
@@ -49,15 +54,20 @@ TRUSTED = [
 ASSUME = [
     "environment of a request (Spec/C12.v sched_ok): the POST completes once; the server answers at most once on the stream, with the "
     "request's own id, not after the request's life is over; a 200 reply carries the answer or is not JSON",
+    "full-strength environment (sched_ok_late): the same, but the one answer on the stream may come after the request's life is over, "
+    "provided the server has not already answered in the POST reply",
     "stream data fields are single-line JSON; exact ties (timer and event in the same loop iteration) are not scripted",
 ]
 BASE = "http://h"
-CFG_NAMES = ["opt_space", "keep_id", "other_terminal", "enter_cancel", "reraise_cancel"]
+CFG_NAMES = ["opt_space", "keep_id", "other_terminal", "enter_cancel", "reraise_cancel", "drop_late", "route_in_stream"]
+I_DROP_LATE, I_ROUTE_IN_STREAM = 5, 6
 HANG = 900.0     # virtual seconds after which a context exit that has not returned is a hang
 PATCH_OF = {"opt_space": "fixes/C12-sse-field-optional-space.patch", "keep_id": "fixes/C12-synth-error-keeps-request-id.patch",
             "other_terminal": "fixes/C12-other-status-always-terminal.patch",
             "enter_cancel": "fixes/C12-cancel-during-enter-cleans-up.patch",
-            "reraise_cancel": "fixes/C12-exit-deadlock-swallowed-cancel.patch"}
+            "reraise_cancel": "fixes/C12-exit-deadlock-swallowed-cancel.patch",
+            "drop_late": "fixes/C12-6-late-answer-dropped.patch",
+            "route_in_stream": "fixes/C12-7-answer-routed-in-stream-order.patch"}
 
 _orig_load = lib.load_findings
 
@@ -391,7 +401,7 @@ def check_parser(ctx, model, cfg):
         ctx.spec_total += 1
         if not ok:
             klass = "sse-field-without-space-not-recognised" if nosp else "sse-stream-message-lost-or-reordered"
-            ctx.spec_violation(klass, {"kind": "parser", "text": text, "cuts": []},
+            ctx.spec_violation(klass, {"kind": "parser", "text": text, "cuts": [], "sent": _norm([absmsg(m) for m in sent])},
                                f"sent {[absmsg(m) for m in sent]} delivered {ref['delivered']}")
 
 
@@ -631,6 +641,11 @@ def check_establishment(ctx, model, cfg):
         judge_leftovers(ctx, model, case, o, "enter" if not o["enter"] else "exit")
 
 
+def _norm(msgs):
+    """Abstract messages as plain nested lists (what survives a JSON round trip)."""
+    return [[i, list(k), t] for i, k, t in msgs]
+
+
 def _jsonable(x):
     if isinstance(x, (bytes, bytearray)):
         return {"b": x.decode("latin-1")}
@@ -717,7 +732,19 @@ def req_cases(ctx):
                     + [("post", 202, ("notjson",))] + ([("sse", absmsg(n2))] if follow == "later" and de + 0.3 >= dp else [])
                 return spec, evs, max(dp, de + 0.3), unrelated
             if mode == "late-answer":
-                evs = ev_pre + [("post", 202, ("notjson",)), ("timeout",), ("sse", a_abs)] + ([("sse", absmsg(n2))] if follow else [])
+                after = variant.get("after", "timeout")       # which synthesised terminal message the answer comes after
+                if after == "timeout":
+                    ended = [("post", 202, ("notjson",)), ("timeout",)]
+                elif after == "exc":
+                    spec["outcome"] = ["exc", "timeout"]        # the POST reply was lost, the server did get the request
+                    ended = [("post", "exc")]
+                elif after == "500":
+                    spec["outcome"] = ["status", 500, b"Internal Server Error", "text/plain"]
+                    ended = [("post", 500, body_class(b"Internal Server Error"))]
+                else:
+                    spec["outcome"] = ["status", 200, b"OK", "text/plain"]
+                    ended = [("post", 200, ("notjson",))]
+                evs = ev_pre + ended + [("sse", a_abs)] + ([("sse", absmsg(n2))] if follow else [])
                 return spec, evs, de + 0.4, unrelated
             if follow in ("same-chunk", "same-time"):
                 evs = ev_pre + [("post", 202, ("notjson",)), ("sse", a_abs), ("sse", absmsg(n2)), ("wake",)]
@@ -756,6 +783,9 @@ def req_cases(ctx):
                     plans.append((rid, "event-then-202", {"n1_at": n1_at, "follow": follow, "dp": 0.6, "de": 0.2, "enc": enc}))
                 plans.append((rid, "202-then-event", {"n1_at": n1_at, "follow": follow, "dp": 0.2, "de": 0.2 + T - 0.1, "ans": "err"}))
                 plans.append((rid, "late-answer", {"n1_at": n1_at, "follow": follow, "dp": 0.2, "de": 0.2 + T + 0.3}))
+                if follow in (None, "same-chunk"):
+                    for after in ("exc", "500", "200-notjson"):
+                        plans.append((rid, "late-answer", {"n1_at": n1_at, "follow": follow, "dp": 0.2, "de": 0.7, "after": after}))
             for code in (400, 404, 500, 503, 204, 201):
                 for body, ctype in ((b"Internal Server Error", "text/plain"), (b"", "text/plain"),
                                     (b'{"error":"boom"}', "application/json"), (b'{"detail":"Not Found","k":5}', "application/json"),
@@ -768,7 +798,7 @@ def req_cases(ctx):
                 plans.append((rid, "exception", {"n1_at": n1_at, "exc": exc}))
             plans.append((rid, "event-then-failure", {"n1_at": n1_at, "dp": 0.6, "de": 0.2, "outcome": ["exc", "timeout"]}))
             plans.append((rid, "event-then-failure", {"n1_at": n1_at, "dp": 0.6, "de": 0.2, "outcome": ["status", 500, b"boom", "text/plain"]}))
-    limit = ctx.budget(420, 100000)
+    limit = ctx.budget(460, 100000)
     if len(plans) > limit:
         must = [p for p in plans if p[0] in ("r1", 7) and p[2].get("n1_at") is None]
         rest = [p for p in plans if p not in must]
@@ -788,6 +818,15 @@ def req_cases(ctx):
         s2, e2, d2, u2 = one(r2, m2, v2)
         cases.append({"label": "seq:" + m1 + "+" + m2, "rids": [r1, r2], "variant": _jsonable([v1, v2]), "T": T,
                       "posts": [s1, s2], "evs": [("send", r1)] + e1 + [("send", r2)] + e2, "durs": [d1, d2], "unrelated": u1 + u2})
+    # the late answer to an abandoned request arrives while the NEXT request is waiting for its own answer
+    for ra, rb in (("r1", "r2"), (7, "r1"), ("7", 8)):
+        a1, a2 = res(ra, tok()), res(rb, tok())
+        cases.append({"label": "seq:late-answer+202-then-event:overlap", "rids": [ra, rb], "variant": {"overlap": True}, "T": T,
+                      "posts": [{"delay": 0.2, "outcome": ["status", 202, b""], "events": [[T + 0.2 + 0.7, enc_event(a1).encode()]]},
+                                {"delay": 0.2, "outcome": ["status", 202, b""], "events": [[0.5, enc_event(a2).encode()]]}],
+                      "evs": [("send", ra), ("post", 202, ("notjson",)), ("timeout",), ("send", rb), ("post", 202, ("notjson",)),
+                              ("sse", absmsg(a1)), ("sse", absmsg(a2)), ("wake",)],
+                      "durs": [0.2 + T + 0.1, 0.9], "unrelated": []})
     for code in (200, 202, 500):
         cases.append({"label": "notification", "rids": [None], "variant": {"code": code}, "T": T,
                       "posts": [{"delay": 0.1, "outcome": ["status", code, b"{}"], "events": []}],
@@ -808,10 +847,15 @@ def check_requests(ctx, model, cfg):
     cases = req_cases(ctx)
     obs = [session(to_session(c)) for c in cases]
     mres = model.run([call(3, sx_cfg(cfg), sx_list([sx_ev(e) for e in c["evs"]])) for c in cases])
-    sched = model.run([call(14, sx_id(c["rids"][0]), sx_list([sx_ev(e) for e in c["evs"][1:]]))
-                       if len(c["rids"]) == 1 and c["rids"][0] is not None else call(0, "0") for c in cases])
+    single = lambda c: len(c["rids"]) == 1 and c["rids"][0] is not None
+    sched = model.run([call(14, sx_id(c["rids"][0]), sx_list([sx_ev(e) for e in c["evs"][1:]])) if single(c) else call(0, "0")
+                       for c in cases])
+    sched_late = model.run([call(15, sx_id(c["rids"][0]), sx_list([sx_ev(e) for e in c["evs"][1:]])) if single(c) else call(0, "0")
+                            for c in cases])
+    due = model.run([call(16, sx_id(c["rids"][0]), sx_list([sx_ev(e) for e in c["evs"][1:]])) if single(c) else call(0, "0")
+                     for c in cases])
     judge = []
-    for c, o, m, sok in zip(cases, obs, mres, sched):
+    for c, o, m, sok, sok_late in zip(cases, obs, mres, sched, sched_late):
         case = {"kind": "request", "label": c["label"], "ids": c["rids"], "variant": c["variant"], "events": _jsonable(c["evs"])}
         ctx.case(case, nontrivial=True)
         ctx.count("req:" + c["label"].split(":")[0])
@@ -827,7 +871,8 @@ def check_requests(ctx, model, cfg):
         for rid in c["rids"]:
             if rid is None:
                 continue
-            in_env = bool(sok) if len(c["rids"]) == 1 else not any(s in c["label"] for s in ("late-answer",))
+            # inside the property's environment, or (a single life) inside the full-strength one
+            in_env = (bool(sok) or bool(sok_late)) if len(c["rids"]) == 1 else True
             judge.append((c, case, rid, [tuple(x) for x in impl], in_env))
         # unrelated traffic: complete, once, in order
         toks = {absmsg(u)[2] for u in c["unrelated"]}
@@ -849,8 +894,8 @@ def check_requests(ctx, model, cfg):
             continue
         n = sum(1 for (i, k, _t) in data if k[0] in (0, 1) and i == rid and type(i) is type(rid))
         stringified = [x for x in data if x[1][0] == 1 and isinstance(rid, int) and x[0] == str(rid)]
-        if "late-answer" in c["label"] and n == 2:
-            klass = "sse-late-answer-second-terminal"
+        if "late-answer" in c["label"] and n == 2 and not cfg[I_DROP_LATE]:
+            klass = "sse-late-answer-second-terminal"       # the member without C12-6: its known failing input
         elif n == 0 and stringified:
             klass = "sse-synth-error-id-stringified"
         elif n == 0 and "other-status" in c["label"]:
@@ -860,17 +905,30 @@ def check_requests(ctx, model, cfg):
         else:
             klass = ("sse-request-no-terminal:" if n == 0 else "sse-request-multiple-terminals:") + c["label"]
         ctx.spec_violation(klass, case, f"request id {rid!r}: {n} terminal message(s); delivered {data}")
-    # full-strength ordering: everything that was on the stream, in stream order
-    for c, o in zip(cases, obs):
+    # ordering: what was on the stream and is delivered, is delivered in stream order
+    full = cfg[I_DROP_LATE] and cfg[I_ROUTE_IN_STREAM] and cfg[1] and cfg[2]
+    due_reqs = []
+    for c, o, sok_late, d in zip(cases, obs, sched_late, due):
         if len(c["rids"]) != 1:
             continue
-        on_stream = [e[1] for e in c["evs"] if e[0] == "sse"]
-        got = [tuple(x[1]) for x in o["delivered"] if tuple(x[1]) in [tuple(s) for s in on_stream]]
-        want = [tuple(s) for s in on_stream if tuple(s) in got]
+        on_stream = [tuple(e[1]) for e in c["evs"] if e[0] == "sse"]
+        got = [tuple(x[1]) for x in o["delivered"] if tuple(x[1]) in on_stream]
+        want = [s for s in on_stream if s in got]
+        case = {"kind": "request", "label": c["label"], "ids": c["rids"], "variant": c["variant"], "events": _jsonable(c["evs"])}
         ctx.spec_total += 1
         if got != want:
-            case = {"kind": "request", "label": c["label"], "ids": c["rids"], "variant": c["variant"], "events": _jsonable(c["evs"])}
-            ctx.spec_violation("sse-answer-overtaken-by-later-event", case, f"stream order {want} delivered {got}")
+            klass = "sse-answer-overtaken-by-later-event" if not cfg[I_ROUTE_IN_STREAM] else "sse-stream-order-broken:" + c["label"]
+            ctx.spec_violation(klass, case, f"stream order {want} delivered {got}")
+        # full strength (Spec/C12.v stream_due, the conclusion of C12_in_order_full): for a code that behaves like a member the
+        # theorem is about, EVERYTHING due from the stream is on the read stream, in stream order, and nothing else from it
+        if full and c["rids"][0] is not None and sok_late:
+            due_reqs.append((c, case, [dec_msg(x) for x in d], got))
+    dres = model.run([call(12, sx_list([sx_msg(m) for m in want]), sx_list([sx_msg(g) for g in got])) for _c, _k, want, got in due_reqs])
+    for (c, case, want, got), ok in zip(due_reqs, dres):
+        ctx.spec_total += 1
+        ctx.count("req-full-strength-order")
+        if not ok:
+            ctx.spec_violation("sse-stream-delivery-not-as-due:" + c["label"], case, f"due from the stream {want} delivered {got}")
 
 
 # ---- exit paths ---------------------------------------------------------------
@@ -994,7 +1052,20 @@ def detect_variant(ctx):
                  "script": {"connect": ["status", 0.02, 200], "stream": [[T_EP, EP_STD]], "end": ["close", 0.5],
                             "posts": [{"delay": 0.4, "outcome": ["status", 202, b""], "events": []}]}})
     reraise = o["exit"][0] != "hang"
-    return [opt_space, keep_id, other_terminal, enter_cancel, reraise]
+    # 202, the timeout error is synthesised, the answer arrives 0.4 s later: dropped, or delivered as a second terminal?
+    a = res("r1", 41)
+    c = {"T": 1.0, "rids": ["r1"], "durs": [1.9],
+         "posts": [{"delay": 0.1, "outcome": ["status", 202, b""], "events": [[1.5, enc_event(a).encode()]]}]}
+    o = session(to_session(c))
+    drop_late = sum(1 for x in o["delivered"] if x[1][0] == "r1" and x[1][1][0] in (0, 1)) == 1
+    # 202, then answer and notification in one chunk: which of the two reaches the read stream first?
+    a, n = res("r1", 42), notif(43)
+    c = {"T": 1.0, "rids": ["r1"], "durs": [0.8],
+         "posts": [{"delay": 0.1, "outcome": ["status", 202, b""], "events": [[0.4, (enc_event(a) + enc_event(n)).encode()]]}]}
+    o = session(to_session(c))
+    toks = [x[1][2] for x in o["delivered"]]
+    route_in_stream = toks == [42, 43]
+    return [opt_space, keep_id, other_terminal, enter_cancel, reraise, drop_late, route_in_stream]
 
 
 # --------------------------------------------------------------------------- #
@@ -1014,11 +1085,14 @@ def run(ctx):
     cfg = detect_variant(ctx)
     ctx.extra["code_variant"] = dict(zip(CFG_NAMES, cfg))
     ctx.extra["full_theorems_apply"] = all(cfg)
+    ctx.extra["model_member"] = ("cfg_patched" if all(cfg) else "cfg_head" if all(cfg[:5]) and not any(cfg[5:]) else
+                                 "cfg_orig" if not any(cfg) else "other")
+    refuted_by = {"drop_late": "C12_one_terminal_refuted / C12_in_order_refuted", "route_in_stream": "C12_in_order_refuted"}
     for name, on in zip(CFG_NAMES, cfg):
         if not on:
             ctx.notes.append(f"the code under test behaves like the member without {PATCH_OF[name]}: the full-strength theorem needing "
-                             f"'{name}' does not apply to it; the refutation witness C12_head_witnesses does, and the spec oracle "
-                             f"reports the failing inputs")
+                             f"'{name}' does not apply to it; the refutation {refuted_by.get(name, 'witness C12_orig_witnesses')} does, "
+                             f"and the spec oracle reports the failing inputs")
     explore(ctx, model, cfg)
     if ctx.corr_mismatch and not ctx.escalated and not ctx.spec_fail:
         ctx.escalated = True
@@ -1026,7 +1100,8 @@ def run(ctx):
     # a member without a patch must have produced its failing inputs (else the claim 'property not shown' stands unexplained)
     expected = {"opt_space": "sse-field-without-space-not-recognised", "keep_id": "sse-synth-error-id-stringified",
                 "other_terminal": "sse-other-status-no-terminal", "enter_cancel": "sse-cancel-during-enter-leaks",
-                "reraise_cancel": "sse-exit-hangs-after-stream-end"}
+                "reraise_cancel": "sse-exit-hangs-after-stream-end", "drop_late": "sse-late-answer-second-terminal",
+                "route_in_stream": "sse-answer-overtaken-by-later-event"}
     seen = {f["class"] for f in ctx.spec_fail}
     for name, on in zip(CFG_NAMES, cfg):
         if not on:
@@ -1039,7 +1114,8 @@ def run(ctx):
                 "non-ASCII payloads) x every cut for k<=3 on short streams, seeded cuts on long ones, through the real httpx aiter_text; "
                 "establishment: announcement forms x paths x chunkings, 13 statuses, connect error/slow/hang, closed/failed/silent "
                 "streams, empty URL, slow announcement around the timeout, timeouts 0.5/5/20 s (15 s connect cap); requests: 5 id "
-                "kinds x modes {200 body, 200 not JSON, 202 then event, event then 202, 202 silence, late answer, 6 other statuses x "
+                "kinds x modes {200 body, 200 not JSON, 202 then event, event then 202, 202 silence, late answer after {timeout error, failed "
+                "POST, 500, 200 not JSON}, late answer during the next request, 6 other statuses x "
                 "7 bodies, 3 exceptions, event then failure} x preceding/following unrelated traffic (same chunk, same time, later) x "
                 "3 spellings, pairs of requests, notifications; exits {normal, exception, task.cancel, anyio scope} at 7 life-cycle "
                 "points + cancellation while entering (4 establishment states). distinct = distinct case dicts; every case runs the "
@@ -1066,6 +1142,9 @@ def replay(ctx, data):
         print("handler calls:", o["acts"])
         bad = o["delivered"] != ref["delivered"] or data.get("class") == "sse-field-without-space-not-recognised" and \
             len(o["delivered"]) < text.count(b"jsonrpc")
+        if "sent" in case:                      # what the server put on the stream, in order
+            print("sent                     :", case["sent"])
+            bad = bad or _norm(ref["delivered"]) != case["sent"]
         print("REPRODUCED" if bad else "not reproduced")
         return 1 if bad else 0
     if kind == "establishment":
